@@ -4,21 +4,41 @@ Stateful model: random histories of create / alias / gc-wrap / release / with /
 drop / gc.collect over ffi.new objects, ffi.gc wrappers (chains, cycles through
 the destructor closure, gc(p, None)), new_allocator allocations, from_buffer
 exports and handles.  The model knows which objects are reachable; destructor
-and free callbacks are monitored at the moment they run and counted.
+and free callbacks are monitored at the moment they run and counted; memory is
+stamped and read back through every surviving accessor (owner, p[0] alias, gc
+wrapper, from_buffer cdata) and inside destructors.
 ASan decides use-after-free / double free.
+
+Every operation is driven through all of its equivalent entry points (the
+pure-Python cffi.FFI, the compiled _cffi_backend.FFI and the bare
+_cffi_backend functions), with failing variants (alloc functions that fail,
+initialisers that fail after the allocation, from_buffer() calls that fail
+before / after the buffer was acquired, destructors that raise or re-enter
+release) and with reference cycles through every object that can carry one
+(destructor closure -> wrapper, handle <-> its object, from_buffer cdata <->
+its source).
 """
-import sys, os, gc, weakref
+import sys, os, gc, weakref, array
 from vlib import core
 
 RULE = ("case = one history of 40 random operations over up to ~12 live objects: ffi.new structs/"
-        "arrays, p[0] aliases, ffi.gc wrappers (also of wrappers, with destructor closures that "
-        "reference their own wrapper), ffi.gc(w, None), ffi.release / with, new_allocator "
-        "allocations (should_clear on/off), from_buffer on a resizable bytearray subclass, "
-        "new_handle/from_handle; gc.collect() after every step on half of the histories; distinct "
-        "= (operation, object kind, model state summary) tuples; non-trivial = every operation "
-        "except a plain gc.collect()")
-ASSUMPTIONS = ["reachability is modelled from the references the harness itself holds (names) plus cffi's documented keep-alive edges (alias -> owner, gc wrapper -> original, from_buffer -> source)",
-               "CPython reference counting: an unreachable acyclic object is finalized at once, a cyclic one at the next gc.collect()"]
+        "unions/variable-sized structs/arrays (3 entry points), p[0] aliases (also of allocator "
+        "structs), ffi.gc wrappers of every kind of cdata (also of wrappers; destructors: plain, "
+        "cyclic, raising, re-entering release/gc(None)/with), ffi.gc(w, None) (also after "
+        "release), ffi.release / with / with+exception / __exit__ (3 entry points), "
+        "new_allocator allocations (python alloc+free, alloc only, default, C-callback "
+        "malloc/free; should_clear on/off; with initialisers), failing allocations (alloc "
+        "returns None / non-pointer / NULL / raises; initialiser fails after alloc), from_buffer "
+        "on bytearray / array.array / memoryview / counting __buffer__ exporters (typed, "
+        "require_writable, shared sources, sources kept alive only by cffi, cycles source->cdata), "
+        "failing from_buffer (too small, zero-sized items, not a pointer type, read-only, str, no "
+        "buffer), handles (3 entry points, shared objects, objects kept alive only by the handle, "
+        "cycles object->handle; from_handle through void*, char*, integer and struct fields); "
+        "gc.collect() after every step on half of the histories; distinct = (operation, variant, "
+        "model state summary) tuples; non-trivial = every operation except a plain gc.collect()")
+ASSUMPTIONS = ["reachability is modelled from the references the harness itself holds (names) plus cffi's documented keep-alive edges (alias -> owner, gc wrapper -> original, from_buffer -> source, handle -> object)",
+               "CPython reference counting: an unreachable acyclic object is finalized at once, a cyclic one at the next gc.collect()",
+               "new_allocator()('struct *') behaves like ffi.new('struct *'): p[0] keeps the allocation alive"]
 
 
 def generate(ctx):
@@ -29,19 +49,71 @@ def generate(ctx):
     return None, [{'seeds': seeds[i:i + per], 'ops': 40} for i in range(0, nh, per)]
 
 
+CDEF = """
+struct s { int a; long b; char c[8]; };
+union u { int a; long b; char c[12]; };
+struct v { int n; short tail[]; };
+struct hold { void *h; char *c; };
+void *malloc(size_t);
+void free(void *);
+"""
+
+
 def child_setup(setup, wd):
     from cffi import FFI
+    import _cffi_backend as B
     ffi = FFI()
-    ffi.cdef("struct s { int a; long b; char c[8]; };")
-    return {'ffi': ffi}
+    ffi.cdef(CDEF)
+    st = {'ffi': ffi, 'B': B, 'cf': B.FFI(), 'lib': ffi.dlopen(None), 'cur': None}
+    # an array type whose items have size 0 (from_buffer cannot compute a length)
+    BEmpty = B.new_struct_type("struct c21_empty")
+    B.complete_struct_or_union(BEmpty, [], Ellipsis, 0)
+    st['BEmptyA'] = B.new_array_type(B.new_pointer_type(BEmpty), None)
+
+    # C-level alloc / free functions (callbacks): dispatch to the running history
+    @ffi.callback("void *(size_t)")
+    def cb_alloc(size):
+        return st['cur'].cb_alloc(size)
+
+    @ffi.callback("void(void *)")
+    def cb_free(p):
+        st['cur'].cb_free(p)
+    st['cb_alloc'], st['cb_free'] = cb_alloc, cb_free
+    return st
 
 
 class BA(bytearray):
     pass
 
 
+class AR(array.array):
+    pass
+
+
+class PyO(object):
+    """an object given to new_handle()"""
+    pass
+
+
+class Exp(object):
+    """buffer exporter that counts acquisitions and releases"""
+    def __init__(self, data, counts, readonly=False):
+        self.ba = bytearray(data)
+        self.counts = counts        # [acquired, released]
+        self.readonly = readonly
+
+    def __buffer__(self, flags):
+        self.counts[0] += 1
+        mv = memoryview(self.ba)
+        return mv.toreadonly() if self.readonly else mv
+
+    def __release_buffer__(self, mv):
+        self.counts[1] += 1
+        mv.release()
+
+
 class Obj(object):
-    """model record of one object"""
+    """model record of one cdata object"""
     def __init__(self, oid, kind, parent=None):
         self.oid, self.kind, self.parent = oid, kind, parent
         self.named = True          # the harness holds a reference
@@ -49,23 +121,70 @@ class Obj(object):
         self.dcount = 0
         self.released = False
         self.cyclic = False
+        self.gone = False          # seen unreachable at a full collection
         self.children = []         # model objects that keep this one alive
+        self.base = None           # the object this one was derived from
+        self.root = None           # the object that owns the memory (None: handle)
+        self.isstruct = False      # cdata of struct type (not a pointer / array)
+        self.stamp = None          # (on roots) expected memory content
+        self.writable = True
+
+
+class Src(object):
+    """model record of one from_buffer source"""
+    def __init__(self, flavour):
+        self.flavour = flavour
+        self.ref = None            # weakref to the exporter
+        self.strong = None         # the harness' own reference (or None)
+        self.lockobj = None        # object whose resize shows the export lock
+        self.users = []            # frombuf Objs
+        self.failed = 0            # failed from_buffer() calls that had acquired the buffer
+        self.counts = None         # Exp: [acquired, released]
+        self.content = b''
+        self.cyclic = False
+        self.readonly = False
+        self.done = False
+
+
+class PyRec(object):
+    """model record of an object given to new_handle()"""
+    def __init__(self):
+        self.ref = None
+        self.strong = None
+        self.handles = []
+        self.cyclic = False
+        self.done = False
 
 
 class H(object):
-    def __init__(self, ffi, rnd, rep, seed, ops):
-        self.ffi, self.rnd, self.rep, self.seed = ffi, rnd, rep, seed
+    def __init__(self, st, rnd, rep, seed, ops):
+        ffi = st['ffi']
+        self.st, self.ffi, self.rnd, self.rep, self.seed = st, ffi, rnd, rep, seed
+        self.B, self.cf, self.lib = st['B'], st['cf'], st['lib']
         self.objs = {}      # oid -> Obj
         self.refs = {}      # oid -> real object (strong ref held by the harness)
         self.next = 0
         self.collect_each = rnd.random() < 0.5
         self.oplog = []
-        self.allocs = {}    # address -> [backing cdata, freed count, alive]
-        self.alloc_should_clear = rnd.random() < 0.5
-        self.allocator = ffi.new_allocator(self.my_alloc, self.my_free,
-                                           should_clear_after_alloc=self.alloc_should_clear)
-        self.freed = {}     # address -> count
-        self.handles = {}   # oid -> (python object)
+        self.srcs = []
+        self.pyos = []
+        # allocations: every call of an alloc function gets an id
+        self.alloc_ids = 0
+        self.live_allocs = {}   # address -> allocation id (not yet freed)
+        self.ever_addr = set()
+        self.free_count = {}    # allocation id -> number of free calls
+        self.by_aid = {}        # allocation id -> Obj
+        self.alloc_mode = 'ok'
+        self.last_aid = None
+        clear = rnd.random() < 0.5
+        self.allocators = {
+            'py': (ffi.new_allocator(self.my_alloc, self.my_free,
+                                     should_clear_after_alloc=clear), clear, 'api'),
+            'nofree': (self.cf.new_allocator(self.my_alloc, None, not clear), not clear, 'cf'),
+            'default': (ffi.new_allocator(should_clear_after_alloc=clear), clear, 'api'),
+            'cb': (self.cf.new_allocator(alloc=st['cb_alloc'], free=st['cb_free'],
+                                         should_clear_after_alloc=not clear), not clear, 'cf'),
+        }
         self.in_release = None
 
     def bad(self, mech, msg):
@@ -73,29 +192,72 @@ class H(object):
                      self.seed)
 
     # ---- allocator callbacks ------------------------------------------
-    def my_alloc(self, size):
-        raw = self.ffi.new('char[]', size + 1)
-        if size:
-            self.ffi.buffer(raw)[0:size] = b'\xdd' * size
-        addr = int(self.ffi.cast('uintptr_t', raw))
-        self.allocs[addr] = raw
-        self.freed[addr] = 0
-        return raw
+    def register_alloc(self, addr):
+        self.alloc_ids += 1
+        aid = self.alloc_ids
+        if addr in self.live_allocs:
+            self.bad('harness-exception', 'alloc returned an address that is still allocated')
+        self.live_allocs[addr] = aid
+        self.ever_addr.add(addr)
+        self.free_count[aid] = 0
+        self.last_aid = aid
+        return aid
 
-    def my_free(self, ptr):
-        addr = int(self.ffi.cast('uintptr_t', ptr))
-        if addr not in self.freed:
-            self.bad('allocator-free-unknown-pointer', 'free called with %r which alloc never '
-                     'returned' % (ptr,))
-            return
-        self.freed[addr] += 1
-        if self.freed[addr] > 1:
-            self.bad('allocator-free-twice', 'free function ran %d times for one allocation' %
-                     self.freed[addr])
-        o = self.by_alloc_addr.get(addr)
+    def my_alloc(self, size):
+        ffi = self.ffi
+        mode = self.alloc_mode
+        if mode == 'none':
+            return None
+        if mode == 'notptr':
+            return ffi.cast('int', 5)
+        if mode == 'null':
+            return ffi.NULL
+        if mode == 'raise':
+            raise RuntimeError('c21 alloc failure')
+        raw = ffi.new('char[]', size + 1)
+        if size:
+            ffi.buffer(raw)[0:size] = b'\xdd' * size
+        self.register_alloc(int(ffi.cast('uintptr_t', raw)))
+        return raw          # only cffi keeps it alive from now on
+
+    def cb_alloc(self, size):
+        ffi = self.ffi
+        if self.alloc_mode == 'null':
+            return ffi.NULL
+        p = self.lib.malloc(size + 1)
+        if size:
+            ffi.buffer(ffi.cast('char *', p), size)[:] = b'\xdd' * size
+        self.register_alloc(int(ffi.cast('uintptr_t', p)))
+        return p
+
+    def note_free(self, ptr):
+        try:
+            addr = int(self.ffi.cast('uintptr_t', ptr))
+        except Exception:
+            self.bad('allocator-free-unknown-pointer', 'free called with %r' % (ptr,))
+            return None
+        aid = self.live_allocs.pop(addr, None)
+        if aid is None:
+            if addr in self.ever_addr:
+                self.bad('allocator-free-twice', 'free function ran again for an allocation that '
+                         'was already freed (address %#x)' % addr)
+            else:
+                self.bad('allocator-free-unknown-pointer', 'free called with %r which alloc never '
+                         'returned' % (ptr,))
+            return None
+        self.free_count[aid] += 1
+        o = self.by_aid.get(aid)
         if o is not None and self.alive(o) and self.in_release is not o:
             self.bad('allocator-free-while-alive', 'free function ran while the allocation %d is '
                      'still reachable' % o.oid)
+        return aid
+
+    def my_free(self, ptr):
+        self.note_free(ptr)
+
+    def cb_free(self, ptr):
+        if self.note_free(ptr) is not None:
+            self.lib.free(ptr)
 
     # ---- model ---------------------------------------------------------
     def alive(self, o):
@@ -113,14 +275,45 @@ class H(object):
             parent.children.append(o)
         return o
 
-    def make_destructor(self, o, cyclic):
+    def addr_of(self, x):
+        ffi = self.ffi
+        if ffi.typeof(x).kind in ('struct', 'union'):
+            x = ffi.addressof(x)
+        return int(ffi.cast('uintptr_t', x))
+
+    def mem_valid(self, o):
+        """the memory o points to is, by the documented keep-alive rules, still
+        valid when reached through o"""
+        if o.root is None or o.root.stamp is None:
+            return False
+        x = o
+        while x is not None:
+            if x.released:
+                return False
+            x = x.base
+        return True
+
+    def read_mem(self, o, real):
+        ffi = self.ffi
+        k = len(o.root.stamp)
+        p = ffi.addressof(real) if o.isstruct else real
+        return bytes(ffi.buffer(ffi.cast('char *', p), k))
+
+    def write_mem(self, o, real, data):
+        ffi = self.ffi
+        p = ffi.addressof(real) if o.isstruct else real
+        ffi.buffer(ffi.cast('char *', p), len(data))[:] = data
+
+    def make_destructor(self, o, flavour):
         h = self
+        cyclic = flavour != 'plain' and flavour != 'raise'
 
         def destructor(arg, _cycle=[]):
             o.dcount += 1
             if o.dcount > 1:
                 h.bad('destructor-ran-twice', 'ffi.gc destructor of wrapper %d ran %d times' %
                       (o.oid, o.dcount))
+                return
             if o.destructor == 'off':
                 h.bad('destructor-after-gc-none', 'destructor of wrapper %d ran after '
                       'ffi.gc(w, None)' % o.oid)
@@ -128,74 +321,188 @@ class H(object):
                 h.bad('destructor-while-alive', 'destructor of wrapper %d ran while it is still '
                       'reachable' % o.oid)
             try:
-                addr = int(h.ffi.cast('uintptr_t', arg))
+                addr = h.addr_of(arg)
             except Exception as e:
                 h.bad('destructor-argument', 'destructor got %r' % (arg,))
                 return
             if addr != o.orig_addr:
                 h.bad('destructor-argument', 'destructor of wrapper %d got address %#x, wrapped '
                       'object is at %#x' % (o.oid, addr, o.orig_addr))
+                return
+            # the original object must still be usable inside the destructor
+            b = o.base
+            if b is not None and h.mem_valid(b):
+                got = h.read_mem(b, arg)
+                h.rep.stat('destructor_reads_memory')
+                if got != b.root.stamp:
+                    h.bad('destructor-memory-changed', 'destructor of wrapper %d reads %s through '
+                          'its argument, memory was stamped %s' % (o.oid, got.hex(),
+                                                                   b.root.stamp.hex()))
+            if flavour.startswith('reenter') and _cycle and _cycle[0] is not None:
+                w = _cycle[0]
+                h.rep.stat('destructor_' + flavour)
+                try:
+                    if flavour == 'reenter-release':
+                        h.ffi.release(w)
+                    elif flavour == 'reenter-with':
+                        with w:
+                            pass
+                    else:
+                        h.ffi.gc(w, None)
+                except Exception as e:
+                    h.bad('release-raised', '%s inside the destructor raised %s: %s' %
+                          (flavour, type(e).__name__, e))
+            if flavour == 'raise':
+                h.rep.stat('destructor_raises')
+                raise ValueError('c21: destructor fails on purpose')
         if cyclic:
             destructor.__defaults__[0].append(None)     # placeholder, set to wrapper later
-        return destructor
-
-    by_alloc_addr = None
+        return destructor, cyclic
 
     def pick(self, kinds=None, named=True):
         c = [o for o in self.objs.values() if o.named and not o.released and
              (kinds is None or o.kind in kinds)]
         return self.rnd.choice(c) if c else None
 
+    def stamp(self, o, k):
+        """fill the k bytes of memory that o owns with a random pattern"""
+        data = bytes(self.rnd.getrandbits(8) for _ in range(k))
+        o.root = o
+        o.stamp = data
+        if k:
+            self.write_mem(o, self.refs[o.oid], data)
+
     # ---- operations ----------------------------------------------------
+    NEW_TYPES = [('struct', 'struct s *', None, 24), ('struct', 'union u *', None, 16),
+                 ('struct', 'struct v *', 'var', None), ('array', 'int[4]', None, 16),
+                 ('array', 'int[]', 'len', None), ('array', 'struct s[2]', None, 48),
+                 ('array', 'char[]', 'bytes', None)]
+
+    def new_args(self, for_alloc=False):
+        """(kind, ctype string, init, size in bytes)"""
+        rnd = self.rnd
+        kind, T, how, k = rnd.choice(self.NEW_TYPES)
+        init = None
+        if how == 'var':
+            n = rnd.randint(0, 5)
+            init = [rnd.randint(0, 99), n]
+            k = 4 + 2 * n
+        elif how == 'len':
+            n = rnd.randint(0, 6)
+            init = n
+            k = 4 * n
+        elif how == 'bytes':
+            n = rnd.randint(0, 9)
+            init = b'x' * n
+            k = n + 1
+        elif rnd.random() < 0.3:
+            if T == 'struct s *':
+                init = {'a': 7, 'b': -3}
+            elif T == 'int[4]':
+                init = [1, 2, 3]
+        return kind, T, init, k
+
+    def do_new(self, maker, via, T, init):
+        ffi = self.ffi
+        if via == 'api':
+            return maker(T) if init is None else maker(T, init)
+        BT = ffi.typeof(T)
+        if via == 'cf':
+            return maker(BT) if init is None else maker(BT, init=init)
+        return maker(BT, init)          # bare backend: newp(BType, init)
+
     def step(self):
-        rnd, ffi = self.rnd, self.ffi
-        if self.by_alloc_addr is None:
-            self.by_alloc_addr = {}
-        op = rnd.choice(['new', 'new', 'alias', 'gcwrap', 'gcwrap', 'gcchain', 'gcnone',
-                         'release', 'with', 'drop', 'drop', 'drop', 'collect', 'alloc', 'alloc',
-                         'frombuf', 'frombuf_fail', 'resize', 'handle', 'fromhandle', 'rerelease',
-                         'useafter'])
+        rnd, ffi, B, cf = self.rnd, self.ffi, self.B, self.cf
+        op = rnd.choice(['new', 'new', 'alias', 'gcwrap', 'gcwrap', 'gcchain', 'gcchain', 'gcnone',
+                         'release', 'release', 'with', 'drop', 'drop', 'drop', 'drop', 'collect',
+                         'alloc', 'alloc', 'alloc_fail', 'frombuf', 'frombuf', 'frombuf_fail',
+                         'resize', 'handle', 'handle', 'fromhandle', 'rerelease',
+                         'useafter', 'useafter'])
         key = (op,)
         if op == 'new':
-            kind = rnd.choice(['struct', 'array'])
-            real = ffi.new('struct s *') if kind == 'struct' else ffi.new('int[4]')
+            kind, T, init, k = self.new_args()
+            via = rnd.choice(['api', 'cf', 'backend'])
+            maker = {'api': ffi.new, 'cf': cf.new, 'backend': B.newp}[via]
+            real = self.do_new(maker, via, T, init)
             o = self.new_obj('own_' + kind, real)
-            self.stamp(o)
+            o.T = T
+            self.stamp(o, k)
+            key = (op, T, via)
+            self.rep.stat('new_via_' + via)
         elif op == 'alias':
-            # only ffi.new('struct *') promises that p[0] keeps the memory alive
-            b = self.pick(('own_struct',))
-            if b is None:
+            # only ffi.new('struct *') (and an allocator's equivalent) promises
+            # that p[0] keeps the memory alive
+            c = [o for o in self.objs.values() if o.named and not o.released and
+                 o.kind in ('own_struct', 'alloc_struct')]
+            if not c:
                 return ('alias-skip',)
+            b = rnd.choice(c)
             real = self.refs[b.oid][0]
             o = self.new_obj('alias', real, parent=None)
             b.children.append(o)       # the alias keeps the owner alive
             o.base = b
+            o.root = b.root
+            o.isstruct = True
+            key = (op, b.kind)
+            self.rep.stat('alias_of_' + b.kind)
         elif op in ('gcwrap', 'gcchain'):
-            b = self.pick(('own_struct', 'own_array', 'alloc_struct', 'gcwrapper')
+            b = self.pick(('own_struct', 'own_array', 'alloc_struct', 'alloc_array', 'gcwrapper',
+                           'alias', 'frombuf', 'handle')
                           if op == 'gcchain' else ('own_struct', 'own_array'))
             if b is None:
                 return (op + '-skip',)
-            cyclic = rnd.random() < 0.35
+            flavour = rnd.choice(['plain', 'plain', 'plain', 'cyclic', 'cyclic', 'raise',
+                                  'reenter-release', 'reenter-with', 'reenter-gcnone'])
             o = Obj(self.next, 'gcwrapper')
             self.next += 1
-            d = self.make_destructor(o, cyclic)
+            d, cyclic = self.make_destructor(o, flavour)
             size = rnd.choice([0, 0, 4096])
-            real = ffi.gc(self.refs[b.oid], d, size) if size else ffi.gc(self.refs[b.oid], d)
+            via = rnd.choice(['api', 'api', 'cf', 'cfkw', 'backend'])
+            breal = self.refs[b.oid]
+            if via == 'api':
+                real = ffi.gc(breal, d, size) if size else ffi.gc(breal, d)
+            elif via == 'cf':
+                real = cf.gc(breal, d, size) if size else cf.gc(breal, d)
+            elif via == 'cfkw':
+                real = cf.gc(cdata=breal, destructor=d, size=size)
+            else:
+                real = B.gcp(breal, d, size) if size else B.gcp(breal, d)
             if cyclic:
                 d.__defaults__[0][0] = real         # reference cycle wrapper -> destructor -> wrapper
             o.cyclic = cyclic
             o.destructor = 'on'
-            o.orig_addr = int(ffi.cast('uintptr_t', self.refs[b.oid]))
+            o.orig_addr = self.addr_of(breal)
+            o.base = b
+            o.root = b.root
+            o.isstruct = b.isstruct
             self.objs[o.oid] = o
             self.refs[o.oid] = real
             b.children.append(o)                    # wrapper keeps the original alive
-            key = (op, b.kind, cyclic)
+            key = (op, b.kind, flavour)
+            self.rep.stat('gcwrap_of_' + b.kind)
+            self.rep.stat('gcwrap_destructor_' + flavour)
+            self.rep.stat('gcwrap_via_' + via)
         elif op == 'gcnone':
-            w = self.pick(('gcwrapper',))
-            if w is None or w.dcount:
+            # also on wrappers that were released / whose destructor already ran
+            c = [o for o in self.objs.values() if o.named and o.kind == 'gcwrapper']
+            if not c:
                 return ('gcnone-skip',)
-            ffi.gc(self.refs[w.oid], None)
-            w.destructor = 'off'
+            w = rnd.choice(c)
+            via = rnd.choice(['api', 'cf', 'backend'])
+            try:
+                if via == 'api':
+                    ffi.gc(self.refs[w.oid], None)
+                elif via == 'cf':
+                    cf.gc(self.refs[w.oid], None)
+                else:
+                    B.gcp(self.refs[w.oid], None)
+            except Exception as e:
+                self.bad('gc-none-raised', 'ffi.gc(w, None) on a %s wrapper raised %s: %s' %
+                         ('released' if w.released else 'live', type(e).__name__, e))
+            if not w.dcount:
+                w.destructor = 'off'
+            key = (op, w.released, via)
+            self.rep.stat('gcnone_on_released' if w.released else 'gcnone_on_live')
         elif op in ('release', 'with', 'rerelease'):
             kinds = ('gcwrapper', 'own_struct', 'own_array', 'alloc_struct', 'alloc_array',
                      'frombuf')
@@ -210,16 +517,36 @@ class H(object):
                 # releasing memory that a live alias / wrapper still uses is the
                 # user's error; not generated
                 return (op + '-skip-has-dependents',)
-            key = (op, w.kind)
+            how = rnd.choice(['with', 'with-raise'] if op == 'with' else
+                             ['ffi', 'ffi', 'cf', 'backend', 'exit'])
+            key = (op, w.kind, how)
             before = w.dcount
             self.in_release = w
             w.released = True      # from now on it keeps nothing alive
+            real = self.refs[w.oid]
+            self.rep.stat('release_how_' + how)
             try:
-                if op == 'with':
-                    with self.refs[w.oid]:
+                if how == 'with':
+                    with real as again:
                         pass
+                    if again is not real:
+                        self.rep.stat('with_as_other_object')
+                elif how == 'with-raise':
+                    try:
+                        with real:
+                            raise KeyError('c21')
+                    except KeyError:
+                        pass
+                    else:
+                        self.rep.stat('with_swallowed_exception')
+                elif how == 'ffi':
+                    ffi.release(real)
+                elif how == 'cf':
+                    cf.release(real)
+                elif how == 'backend':
+                    B.release(real)
                 else:
-                    ffi.release(self.refs[w.oid])
+                    real.__exit__(None, None, None)
             except Exception as e:
                 self.bad('release-raised', '%s of a %s raised %s: %s' %
                          (op, w.kind, type(e).__name__, e))
@@ -231,82 +558,153 @@ class H(object):
                              'destructor-ran-twice', '%s of wrapper %d: destructor count %d '
                              '(before %d)' % (op, w.oid, w.dcount, before))
             if w.kind.startswith('alloc'):
-                if self.freed.get(w.addr) != 1:
-                    self.bad('allocator-free-count', '%s of an allocator object: free ran %r '
-                             'times' % (op, self.freed.get(w.addr)))
+                want = 0 if w.nofree else 1
+                if self.free_count.get(w.aid) != want:
+                    self.bad('allocator-free-count', '%s of an allocator object (%s): free ran %r '
+                             'times' % (op, w.flavour, self.free_count.get(w.aid)))
             if w.kind == 'frombuf':
-                self.check_resize(w, True, 'after ' + op)
+                self.check_src(w.src, 'after ' + op)
             w.released = True
         elif op == 'drop':
             c = [o for o in self.objs.values() if o.named]
+            c += [s for s in self.srcs if s.strong is not None]
+            c += [p for p in self.pyos if p.strong is not None]
             if not c:
                 return ('drop-skip',)
             o = rnd.choice(c)
-            key = (op, o.kind, o.cyclic)
-            o.named = False
-            del self.refs[o.oid]
+            if isinstance(o, Src):
+                # from now on only the from_buffer cdata keeps the source alive
+                o.strong = None
+                key = (op, 'source', o.flavour)
+                self.rep.stat('drop_source')
+            elif isinstance(o, PyRec):
+                o.strong = None
+                key = (op, 'handle-object')
+                self.rep.stat('drop_handle_object')
+            else:
+                key = (op, o.kind, o.cyclic)
+                o.named = False
+                del self.refs[o.oid]
+            del o
             self.after_drop()
         elif op == 'collect':
             gc.collect()
             self.after_collect()
         elif op == 'alloc':
-            kind = rnd.choice(['struct', 'array'])
-            n0 = len(self.freed)
-            real = self.allocator('struct s *') if kind == 'struct' else self.allocator('int[]', 5)
-            o = self.new_obj('alloc_' + kind, real)
-            o.addr = int(ffi.cast('uintptr_t', real))
-            if o.addr not in self.freed:
-                self.bad('allocator-address', 'allocator object does not live in the memory '
-                         'returned by the alloc function')
-            self.by_alloc_addr[o.addr] = o
-            b = bytes(ffi.buffer(real))
-            if self.alloc_should_clear and b.strip(b'\0'):
-                self.bad('allocator-not-cleared', 'should_clear_after_alloc=True but memory is '
-                         + b.hex())
-            if not self.alloc_should_clear and b != b'\xdd' * len(b):
-                self.bad('allocator-cleared', 'should_clear_after_alloc=False but memory was '
-                         'modified: ' + b.hex())
-            key = (op, kind, self.alloc_should_clear)
+            flavour = rnd.choice(['py', 'py', 'nofree', 'default', 'cb', 'cb'])
+            allocator, clear, via = self.allocators[flavour]
+            kind, T, init, k = self.new_args()
+            self.st['cur'] = self
+            self.alloc_mode = 'ok'
+            self.last_aid = None
+            real = self.do_new(allocator, via, T, init)
+            if flavour == 'default':
+                o = self.new_obj('own_' + kind, real)
+                if self.last_aid is not None:
+                    self.bad('allocator-address', 'default allocator called an alloc function')
+            else:
+                o = self.new_obj('alloc_' + kind, real)
+                o.aid = self.last_aid
+                o.nofree = flavour == 'nofree'
+                o.flavour = flavour
+                addr = int(ffi.cast('uintptr_t', real))
+                if o.aid is None or self.live_allocs.get(addr) != o.aid:
+                    self.bad('allocator-address', 'allocator object does not live in the memory '
+                             'returned by the alloc function')
+                else:
+                    self.by_aid[o.aid] = o
+            o.T = T
+            if init is None and k:
+                b = bytes(ffi.buffer(ffi.cast('char *', real), k))
+                if clear and b.strip(b'\0'):
+                    self.bad('allocator-not-cleared', 'should_clear_after_alloc=True but memory is '
+                             + b.hex())
+                if not clear and flavour != 'default' and b != b'\xdd' * len(b):
+                    self.bad('allocator-cleared', 'should_clear_after_alloc=False but memory was '
+                             'modified: ' + b.hex())
+            self.stamp(o, k)
+            key = (op, flavour, T, clear, init is not None)
+            self.rep.stat('alloc_' + flavour)
+        elif op == 'alloc_fail':
+            # a failing allocation: the free function runs once if (and only if)
+            # the alloc function had already handed out memory
+            mode = rnd.choice(['none', 'notptr', 'null', 'raise', 'badinit', 'badinit'])
+            flavour = 'cb' if mode in ('null', 'badinit') and rnd.random() < 0.4 else 'py'
+            allocator, clear, via = self.allocators[flavour]
+            self.st['cur'] = self
+            self.last_aid = None
+            if mode == 'badinit':
+                T, init = rnd.choice([('struct s *', {'nosuchfield': 1}), ('int[]', [1, 'x']),
+                                      ('int[4]', [1, 2, 3, 4, 5]), ('struct s *', [1, 2, 3, 4, 5]),
+                                      ('union u *', 'text'), ('struct v *', [1, [2, 'y']])])
+                self.alloc_mode = 'ok'
+            else:
+                T, init = rnd.choice([('struct s *', None), ('int[]', 3), ('int[4]', None)])
+                self.alloc_mode = mode
+            nlive = len(self.live_allocs)
+            try:
+                real = self.do_new(allocator, via, T, init)
+            except Exception as e:
+                real = None
+                self.rep.stat('alloc_fail_' + mode)
+            finally:
+                self.alloc_mode = 'ok'
+            if real is not None:
+                # (not a matter of this property) it worked: a normal allocation
+                self.rep.stat('alloc_fail_unexpected_success')
+                del real
+            aid = self.last_aid
+            if mode != 'badinit':
+                if aid is not None:
+                    self.bad('harness-exception', 'allocation registered in mode ' + mode)
+            elif aid is not None:
+                if self.free_count[aid] != 1:
+                    gc.collect()
+                if self.free_count[aid] != 1:
+                    self.bad('allocator-free-count', 'initialiser %r for %s failed after the alloc '
+                             'function had returned memory: free ran %d times' %
+                             (init, T, self.free_count[aid]))
+            if len(self.live_allocs) > nlive and mode != 'badinit':
+                self.bad('harness-exception', 'live allocation count grew in mode ' + mode)
+            key = (op, mode, flavour, T)
         elif op == 'frombuf':
-            src = BA(b'0123456789abcdef')
-            real = ffi.from_buffer(src)
-            o = self.new_obj('frombuf', real)
-            o.src = src
-            o.src_ref = weakref.ref(src)
-            self.check_resize(o, False, 'right after from_buffer')
+            key = self.op_frombuf()
         elif op == 'frombuf_fail':
-            # a failing from_buffer() must not leave the source export-locked
-            # or referenced
-            src = BA(b'0123456789')
-            r = weakref.ref(src)
-            T = rnd.choice(['int[64]', 'char[11]', 'long long[2]'])
-            try:
-                ffi.from_buffer(T, src)
-                self.bad('from_buffer-too-small-accepted', "from_buffer(%r, <10 bytes>) accepted" % T)
-            except ValueError:
-                pass
-            try:
-                src.append(1)
-            except BufferError:
-                self.bad('export-lock-not-released', 'source of a *failed* from_buffer(%r) is '
-                         'still export-locked' % T)
-            del src
-            if r() is not None:
-                gc.collect()
-                if r() is not None:
-                    self.bad('from_buffer-source-leaked', 'source of a failed from_buffer(%r) is '
-                             'kept alive' % T)
-            key = (op, T)
+            key = self.op_frombuf_fail()
         elif op == 'resize':
-            w = self.pick(('frombuf',))
-            if w is None:
+            c = [s for s in self.srcs if not s.done]
+            if not c:
                 return ('resize-skip',)
-            self.check_resize(w, False, 'while exported')
+            self.check_src(rnd.choice(c), 'at a resize operation')
         elif op == 'handle':
-            pyobj = [object(), self.next]
-            real = ffi.new_handle(pyobj)
+            # the object: new, or one that already has a live handle
+            c = [p for p in self.pyos if p.strong is not None and not p.cyclic]
+            if c and rnd.random() < 0.3:
+                rec = rnd.choice(c)
+                pyobj = rec.strong
+                shape = 'shared'
+            else:
+                rec = PyRec()
+                pyobj = PyO()
+                rec.ref = weakref.ref(pyobj)
+                shape = rnd.choice(['held', 'held', 'unheld', 'cyclic'])
+                rec.strong = pyobj if shape == 'held' else None
+                self.pyos.append(rec)
+            via = rnd.choice(['api', 'cf', 'backend'])
+            if via == 'api':
+                real = ffi.new_handle(pyobj)
+            elif via == 'cf':
+                real = cf.new_handle(pyobj)
+            else:
+                real = B.newp_handle(ffi.typeof('void *'), pyobj)
+            if shape == 'cyclic':
+                pyobj.handle = real        # cycle object -> handle -> object
+                rec.cyclic = True
+            del pyobj
             o = self.new_obj('handle', real)
-            o.pyobj = pyobj
+            o.cyclic = shape == 'cyclic'
+            o.rec = rec
+            rec.handles.append(o)
             addrs = {}
             for h in self.objs.values():
                 if h.kind == 'handle' and h.named:
@@ -314,55 +712,272 @@ class H(object):
                     if a in addrs:
                         self.bad('handles-share-address', 'two live handles at %#x' % a)
                     addrs[a] = h
+            key = (op, shape, via)
+            self.rep.stat('handle_' + shape)
+            self.rep.stat('handle_via_' + via)
         elif op == 'fromhandle':
             w = self.pick(('handle',))
             if w is None:
                 return ('fromhandle-skip',)
+            want = w.rec.ref()
+            if want is None:
+                self.bad('handle-object-freed', 'the object given to new_handle() was freed while '
+                         'the handle is alive')
+                return (op, 'freed')
             h = self.refs[w.oid]
-            via = rnd.choice(['direct', 'voidp', 'intptr'])
-            key = (op, via)
+            via = rnd.choice(['direct', 'voidp', 'charp', 'intptr', 'field-voidp', 'field-charp'])
+            entry = rnd.choice(['api', 'cf', 'backend'])
+            key = (op, via, entry)
             if via == 'voidp':
                 h = ffi.cast('void *', h)
+            elif via == 'charp':
+                h = ffi.cast('char *', h)
             elif via == 'intptr':
                 h = ffi.cast('void *', int(ffi.cast('intptr_t', h)))
-            got = ffi.from_handle(h)
-            if got is not w.pyobj:
+            elif via.startswith('field'):
+                hold = ffi.new('struct hold *')
+                hold.h = h
+                hold.c = ffi.cast('char *', h)
+                h = hold.h if via == 'field-voidp' else hold.c
+            got = {'api': ffi.from_handle, 'cf': cf.from_handle, 'backend': B.from_handle}[entry](h)
+            if got is not want:
                 self.bad('from_handle-wrong-object', 'from_handle returned %r, not the object '
                          'given to new_handle' % (got,))
+            del got, want
+            self.rep.stat('fromhandle_' + via)
         elif op == 'useafter':
-            # memory of an owner stays valid through a surviving alias
-            a = self.pick(('alias',))
-            if a is None:
+            # memory stays valid through every surviving accessor
+            c = [o for o in self.objs.values() if o.named and self.mem_valid(o)]
+            if not c:
                 return ('useafter-skip',)
+            a = rnd.choice(c)
             real = self.refs[a.oid]
-            exp = a.base.stamp
-            if (real.a, real.b) != exp:
-                self.bad('alias-memory-changed', 'struct read through alias = (%d, %d), owner was '
-                         'stamped %r (owner %s)' % (real.a, real.b, exp,
-                                                    'named' if a.base.named else 'dropped'))
-            key = (op, a.base.named)
+            got = self.read_mem(a, real)
+            owner = 'named' if a.root.named else 'dropped'
+            if got != a.root.stamp:
+                self.bad('alias-memory-changed' if a.kind == 'alias' else 'memory-changed',
+                         'memory read through %s %d = %s, owner %s %d was stamped %s (owner %s)' %
+                         (a.kind, a.oid, got.hex(), a.root.kind, a.root.oid, a.root.stamp.hex(),
+                          owner))
+            if a.root.writable and a.root.stamp and rnd.random() < 0.3:
+                data = bytes(rnd.getrandbits(8) for _ in range(len(a.root.stamp)))
+                self.write_mem(a, real, data)
+                a.root.stamp = data
+                self.rep.stat('restamp_through_' + a.kind)
+            key = (op, a.kind, a.root.kind, owner)
+            self.rep.stat('useafter_%s_owner_%s' % (a.kind, owner))
         return key
 
-    def stamp(self, o):
-        real = self.refs[o.oid]
-        if o.kind == 'own_struct':
-            v = (self.rnd.randint(-1000, 1000), self.rnd.randint(-10 ** 9, 10 ** 9))
-            real.a, real.b = v
-            o.stamp = v
+    # ---- from_buffer ------------------------------------------------------
+    FB_TYPES = [None, None, 'char[]', 'unsigned char[]', 'int[]', 'short[3]', 'char[16]',
+                'struct s *', 'int *', 'long long[2]']
 
-    def check_resize(self, o, should_work, when):
-        src = o.src
+    def make_source(self):
+        rnd = self.rnd
+        flavour = rnd.choice(['ba', 'ba', 'exp', 'exp', 'array', 'mv', 'exp-ro', 'mv-ro'])
+        n = rnd.choice([16, 17, 24, 40])
+        data = bytes(rnd.getrandbits(8) for _ in range(n))
+        s = Src(flavour)
+        s.content = data
+        if flavour == 'ba':
+            x = BA(data)
+        elif flavour == 'array':
+            x = AR('b', data)
+        elif flavour.startswith('mv'):
+            s.lockobj = bytearray(data)
+            x = memoryview(s.lockobj)
+            if flavour == 'mv-ro':
+                x = x.toreadonly()
+                s.readonly = True
+        else:
+            s.counts = [0, 0]
+            s.readonly = flavour == 'exp-ro'
+            x = Exp(data, s.counts, s.readonly)
+            s.lockobj = x.ba
+        s.ref = weakref.ref(x)
+        s.strong = x
+        self.srcs.append(s)
+        self.rep.stat('frombuf_source_' + flavour)
+        return s
+
+    def from_buffer(self, T, x, rw, via):
+        ffi = self.ffi
+        if via == 'api1':
+            return ffi.from_buffer(x, require_writable=True) if rw else ffi.from_buffer(x)
+        if via == 'api':
+            return ffi.from_buffer(T, x, require_writable=rw)
+        BT = T if not isinstance(T, str) else ffi.typeof(T)
+        if via == 'cf':
+            if T is None:
+                return self.cf.from_buffer(x, require_writable=rw) if rw else self.cf.from_buffer(x)
+            return self.cf.from_buffer(BT, x, require_writable=rw)
+        return self.B.from_buffer(BT, x, 1) if rw else self.B.from_buffer(BT, x)
+
+    def op_frombuf(self):
+        rnd, ffi = self.rnd, self.ffi
+        c = [s for s in self.srcs if s.strong is not None and not s.cyclic and not s.done]
+        if c and rnd.random() < 0.3:
+            s = rnd.choice(c)
+            shape = 'shared'
+        else:
+            s = self.make_source()
+            shape = 'fresh'
+        x = s.strong
+        T = rnd.choice(self.FB_TYPES)
+        rw = (not s.readonly) and rnd.random() < 0.3
+        if T is None:
+            via = rnd.choice(['api1', 'cf'])
+        else:
+            via = rnd.choice(['api', 'cf', 'backend'])
+        real = self.from_buffer(T, x, rw, via)
+        o = self.new_obj('frombuf', real)
+        o.src = s
+        o.root = o
+        o.writable = False
+        o.stamp = s.content[:16]
+        s.users.append(o)
+        if shape == 'fresh':
+            keep = rnd.choice(['held', 'unheld', 'cyclic'])
+            if keep == 'cyclic' and s.flavour.startswith('mv'):
+                keep = 'unheld'
+            if keep == 'cyclic':
+                x.cdata = real            # cycle source -> cdata -> source
+                s.cyclic = True
+                o.cyclic = True
+            if keep != 'held':
+                s.strong = None
+            shape = keep
+        del x
+        self.check_src(s, 'right after from_buffer')
+        self.rep.stat('frombuf_shape_' + shape)
+        self.rep.stat('frombuf_via_' + via)
+        self.rep.stat('frombuf_type_' + (T or 'default').replace(' ', '_'))
+        if rw:
+            self.rep.stat('frombuf_require_writable')
+        return ('frombuf', s.flavour, T, via, shape, rw)
+
+    def op_frombuf_fail(self):
+        """a failing from_buffer() must not leave the source export-locked or
+        referenced, and must not disturb the exports that exist"""
+        rnd, ffi = self.rnd, self.ffi
+        mode = rnd.choice(['too-small', 'too-small', 'empty-item', 'empty-item', 'not-pointer',
+                           'readonly', 'str', 'no-buffer'])
+        c = [s for s in self.srcs if s.strong is not None and not s.cyclic and not s.done]
+        s = None
+        fresh = False
+        rw = False
+        acquired = False        # the failure comes after the buffer was acquired
+        if mode == 'str':
+            x, T = u'some text', 'char[]'
+        elif mode == 'no-buffer':
+            x, T = object(), 'char[]'
+        else:
+            if c and rnd.random() < 0.4:
+                s = rnd.choice(c)
+            else:
+                s = self.make_source()
+                fresh = True
+            x = s.strong
+            if mode == 'too-small':
+                T = rnd.choice(['int[64]', 'char[41]', 'long long[6]', 'struct s[2]'])
+                acquired = True
+            elif mode == 'empty-item':
+                T = self.st['BEmptyA']
+                acquired = True
+            elif mode == 'not-pointer':
+                T = rnd.choice(['int', 'struct s'])
+            else:
+                if not s.readonly:
+                    # nothing to fail on: a writable source
+                    mode = 'too-small'
+                    T = 'int[64]'
+                    acquired = True
+                else:
+                    T = 'char[]'
+                    rw = True
+        via = rnd.choice(['api', 'cf', 'backend'])
+        if mode in ('str', 'no-buffer') and rnd.random() < 0.5:
+            via, T = 'api1', None
         try:
-            src.append(1)
-            worked = True
-            del src[-1]
-        except BufferError:
-            worked = False
-        if worked != should_work:
-            self.bad('export-lock-released-early' if worked else 'export-lock-not-released',
-                     'resizing the from_buffer source %s: %s' %
-                     (when, 'worked' if worked else 'BufferError'))
+            real = self.from_buffer(T, x, rw, via)
+        except Exception as e:
+            real = None
+            self.rep.stat('frombuf_fail_' + mode)
+        del x
+        if real is not None:
+            if mode == 'too-small':
+                self.bad('from_buffer-too-small-accepted', "from_buffer(%r, <%d bytes>) accepted"
+                         % (T, len(s.content)))
+            self.rep.stat('frombuf_fail_unexpected_success')
+            ffi.release(real)
+            del real
+            if s is not None:
+                s.failed += 1       # acquired and released
+        elif acquired and not (rw and s.readonly):
+            s.failed += 1
+        if s is not None:
+            if fresh:
+                s.strong = None
+            self.check_src(s, 'after a failed from_buffer (%s)' % mode)
+            if fresh:
+                if s.ref() is not None:
+                    gc.collect()
+                if s.ref() is not None:
+                    self.bad('from_buffer-source-leaked', 'source (%s) of a failed from_buffer '
+                             '(%s) is kept alive' % (s.flavour, mode))
+                s.done = True
+        return ('frombuf_fail', mode, via, s.flavour if s else None, 'fresh' if fresh else 'shared')
 
+    def check_src(self, s, when, collected=False):
+        """export lock, release count and liveness of one from_buffer source"""
+        if s.done:
+            return
+        users = s.users
+        locked_must = any(not u.released and self.alive(u) for u in users)
+        if collected:
+            for u in users:
+                if not u.released and not self.alive(u):
+                    u.gone = True
+        unlocked_must = all(u.released or u.gone for u in users)
+        x = s.ref()
+        if x is None:
+            if locked_must:
+                self.bad('from_buffer-source-freed', 'the source (%s) was freed although a '
+                         'from_buffer cdata that was not released is alive, %s' % (s.flavour, when))
+            s.done = True
+            return
+        target = s.lockobj if s.lockobj is not None else x
+        if locked_must or unlocked_must:
+            try:
+                target.append(1)
+                worked = True
+                del target[-1]
+            except BufferError:
+                worked = False
+            if worked and locked_must:
+                self.bad('export-lock-released-early', 'resizing the from_buffer source (%s) %s: '
+                         'worked' % (s.flavour, when))
+            if not worked and unlocked_must:
+                self.bad('export-lock-not-released', 'resizing the from_buffer source (%s) %s: '
+                         'BufferError' % (s.flavour, when))
+        if s.counts is not None:
+            lo = s.failed + sum(1 for u in users if u.released or u.gone)
+            hi = lo + sum(1 for u in users if not u.released and not u.gone and not self.alive(u))
+            rel = s.counts[1]
+            if rel < lo:
+                self.bad('export-lock-not-released', 'counting exporter %s: %d buffer releases, '
+                         'expected at least %d' % (when, rel, lo))
+            elif rel > hi:
+                self.bad('export-released-twice', 'counting exporter %s: %d buffer releases, '
+                         'expected at most %d' % (when, rel, hi))
+        del x, target
+        if collected and s.strong is None and unlocked_must:
+            if s.ref() is not None:
+                self.bad('from_buffer-source-leaked', 'source (%s) of from_buffer still alive '
+                         'after every cdata made from it was released or collected' % s.flavour)
+            s.done = True
+
+    # ---- checks after drops and collections ----------------------------
     def after_drop(self):
         # acyclic unreachable wrappers are finalized at once (refcounting)
         for o in self.objs.values():
@@ -387,39 +1002,59 @@ class H(object):
             if o.kind == 'gcwrapper' and o.destructor == 'off' and o.dcount:
                 self.bad('destructor-after-gc-none', 'wrapper %d had its destructor removed but '
                          'it ran' % o.oid)
-            if o.kind.startswith('alloc') and self.freed.get(o.addr) != 1:
-                self.bad('allocator-free-count', 'allocation %d unreachable after gc.collect(): '
-                         'free ran %r times' % (o.oid, self.freed.get(o.addr)))
-            if o.kind == 'frombuf' and not o.released:
-                self.check_resize(o, True, 'after the cdata was collected')
-                o.released = True
+            if o.kind.startswith('alloc') and not o.gone:
+                want = 0 if o.nofree else 1
+                if self.free_count.get(o.aid) != want:
+                    self.bad('allocator-free-count', 'allocation %d (%s) unreachable after '
+                             'gc.collect(): free ran %r times' % (o.oid, o.flavour,
+                                                                  self.free_count.get(o.aid)))
+            o.gone = True
+        for s in self.srcs:
+            self.check_src(s, 'after a full collection', collected=True)
+        for p in self.pyos:
+            if p.done:
+                continue
+            if any(self.alive(h) for h in p.handles):
+                if p.ref() is None:
+                    self.bad('handle-object-freed', 'the object given to new_handle() was freed '
+                             'while a handle is alive')
+                    p.done = True
+            elif p.strong is None:
+                if p.ref() is not None:
+                    self.bad('handle-object-leaked', 'the object given to new_handle() is still '
+                             'alive after all its handles were collected (%s)' %
+                             ('cycle object -> handle' if p.cyclic else 'no cycle'))
+                p.done = True
 
     def finish(self):
         for o in self.objs.values():
             o.named = False
+        for s in self.srcs:
+            s.strong = None
+        for p in self.pyos:
+            p.strong = None
         self.refs.clear()
         gc.collect()
         gc.collect()
         self.after_collect()
-        for o in self.objs.values():
-            if o.kind == 'frombuf':
-                src = o.src
-                o.src = None
-                r = o.src_ref
-                del src
-                gc.collect()
-                if r() is not None:
-                    self.bad('from_buffer-source-leaked', 'source of from_buffer still alive after '
-                             'everything was dropped')
+        if self.live_allocs:
+            # every allocation with a free function must have been freed by now
+            for addr, aid in self.live_allocs.items():
+                o = self.by_aid.get(aid)
+                if o is None or not o.nofree:
+                    self.bad('allocator-free-count', 'an allocation (%s) was never freed although '
+                             'everything was dropped and collected' %
+                             (o.flavour if o is not None else 'failed call'))
+                    break
 
 
 def child_case(st, case):
     import random
-    ffi = st['ffi']
     rep = core.ChildRep()
     for seed in case['seeds']:
         rnd = random.Random(seed)
-        h = H(ffi, rnd, rep, seed, case['ops'])
+        h = H(st, rnd, rep, seed, case['ops'])
+        st['cur'] = h
         rep.stat('histories')
         rep.stat('histories_gc_every_step' if h.collect_each else 'histories_gc_random')
         try:
@@ -438,7 +1073,7 @@ def child_case(st, case):
             import traceback
             h.bad('harness-exception', traceback.format_exc()[-900:])
         rep.stat('destructors_run', sum(o.dcount for o in h.objs.values()))
-        rep.stat('frees_run', sum(h.freed.values()))
+        rep.stat('frees_run', sum(h.free_count.values()))
     return rep.result()
 
 
